@@ -46,11 +46,14 @@ def _dispatch(node: Any, methods: list[str], strict: bool) -> str | None:
     return None
 
 
-def make_harness(shapes, method_sets):
+def make_harness(shapes_, method_sets, prepare=None):
     def harness(e):
         from pyoak.visitor import ASTTransformVisitor
 
         reset_all()
+        shapes = shapes_
+        if prepare is not None:
+            shapes, _extra = prepare(e)  # freshly created classes (multiple inheritance, mixins, empty bodies)
         sno = e.choice(len(shapes), "shape")
         recipe = shapes[sno]
         if e.flag("last_leaf_falsy"):
@@ -408,6 +411,10 @@ def spec(tier: str, seed: int) -> Spec:
         R("VTwoSeq", left=(R("VLeaf"), R("VIter", items=(R("VLeaf"),))), right=(R("VLeaf"),), mid=R("VFalsy")),
         R("VSlot", kid=R("VTwoSeq", left=(R("VLeaf"),), right=(R("VLeaf"), R("VSlot")))),
     )]
+    from checks.C05 import _mi_prepare
+
+    for first in (("MNamed",) if tier == "quick" else ("MNamed", "MFunc")):
+        fams.append(Family(f"multiple-inheritance-first-{first}", make_harness([], ["leaf-class-only"] if tier == "quick" else ["leaf-class-only", "base-class-only", "none"], prepare=lambda e, _f=first: _mi_prepare(e, (_f,))), variables=var + "; freshly created classes with multiple inheritance / plain dataclass mixins / empty bodies"))
     fams.append(Family("visitor-object-reused", reuse_harness, variables="selectors: rule variant, strict, whether earlier inputs stay alive; 40 transforms by one visitor object per path"))
     fams.append(Family("mixin-in-mro", make_harness(mixed, ["base-class-only", "leaf-class-only", "root-class-only", "sub-leaf-and-leaf", "own-classes"]), variables=var + "; classes with a non-node mixin before / after the node base, and a diamond"))
     return Spec(
